@@ -70,6 +70,9 @@ def base_spec(rng):
     if fmt != "fixed" and rng.random() < 0.2:
         # a sound CID whose example fits its field only together with its trailing blank
         fields.append({"name": "padded", "type": "Text", "length": "3", "example": "ab "})
+    if rng.random() < 0.15:
+        # soft keywords of Python are ordinary names
+        fields[rng.randrange(len(fields))]["name"] = rng.choice(["match", "case", "type"])
     names = [field["name"] for field in fields]
     checks = []
     for index in range(rng.choice([0, 1, 1, 2, 3])):
@@ -337,6 +340,8 @@ def _d37(rows, index):
 
 
 defect("type-unterminated-quote", "f")(_set(5, "'Integer"))
+defect("type-abstract", "f")(_set(5, "Abstract"))  # the base class of the field formats is no type
+defect("check-type-abstract", "c")(_set(2, "Abstract"))
 defect("length-part-contains-the-other", "f", only=lambda rows: not _fixed_only(rows))(_set(4, "5...6, 1...10"))
 
 
